@@ -187,6 +187,7 @@ func runCodec(cfg *Cfg) {
 			out.Count("targets_without_model:" + t.S.Why)
 		}
 		en := enumNums(t)
+		boundaryPass(out, t, cfg.Tier, modelOK)
 		for c := 0; c < perTarget; c++ {
 			g := &vval.GenOpts{MaxDepth: 1 + r.Intn(4), Unknown: r.Chance(50), NilJunk: r.Chance(12), BadUTF8: r.Chance(8), BigMaps: r.Chance(10), EnumNums: en}
 			v := g.Message(r, t.S, 0, 0)
